@@ -37,9 +37,10 @@ class Leaf:
 
 
 class PathEnum:
-    def __init__(self, fn, facts, max_paths=20000, start_env=None):
+    def __init__(self, fn, facts, max_paths=20000, start_env=None, versioned=False):
         self.fn = fn
         self.facts = facts
+        self.versioned = versioned
         self.max_paths = max_paths
         self.leaves = []
         self.start_env = start_env or {}
@@ -69,6 +70,9 @@ class PathEnum:
             l = p["local"]
             if 1 <= l <= self.fn.nargs:
                 t = ("arg", l)
+                v = env.get("@ver:_%d" % l, 0)
+                if v and proj and proj[0]["k"] == "deref":
+                    t = ("argv", l, v)
             else:
                 t = ("var", l)
             rest = proj
@@ -144,7 +148,7 @@ class PathEnum:
                 return a  # &[u8; N] -> &[u8]: same bytes
             if a[0] == "const" and isinstance(a[1], int) and not isinstance(a[1], bool) and rv["kind"] == "IntToInt":
                 return ("const", a[1])  # value-preserving for the small constants in this crate
-            return ("cast", a, rv["ty"]["s"], rv["kind"])
+            return ("cast", a, rv["ty"]["s"], rv["kind"], (rv.get("from") or {}).get("s"))
         if k == "discr":
             x = self.read_place(env, rv["place"])
             if x[0] == "agg":
@@ -219,7 +223,12 @@ class PathEnum:
                 continue
             if k == "assert":
                 c = self.operand(env, t["cond"])
-                events = events + [("assert", bb, None, t["msg"]["k"], c)]
+                m = t["msg"]
+                ops = {}
+                for key in ("len", "index", "l", "r", "arg"):
+                    if key in m:
+                        ops[key] = self.operand(env, m[key])
+                events = events + [("assert", bb, None, m["k"], c, {"op": m.get("op"), "ty": m.get("ty"), "ops": ops, "expected": t["expected"]})]
                 bb = t["target"]
                 continue
             if k == "call":
@@ -232,7 +241,7 @@ class PathEnum:
                 else:
                     path = callee_path(t)
                 ct = ("call", path, args, bb)
-                events = events + [("call", bb, None, path, ct)]
+                events = events + [("call", bb, None, path, ct, t)]
                 # `?` on a literal Ok/Err folds
                 if path == "std::ops::Try::branch" and args and args[0][0] == "agg" and args[0][2] in ("Ok", "Err") and adt_base(args[0][1]) == "std::result::Result":
                     if args[0][2] == "Ok":
@@ -277,13 +286,13 @@ class PathEnum:
                 vals = [tv for tv, _ in targets]
                 for tv, tb in targets:
                     if feasible(conds, d, ("eq", tv)):
-                        self._walk(tb, dict(env), conds + [(d, ("eq", tv), bb)], trace, events, onpath)
+                        self._walk(tb, dict(env), conds + [(d, ("eq", tv), bb)], trace, events + [("cond", bb, None, d, ("eq", tv))], onpath)
                 if feasible(conds, d, ("ne", tuple(vals))):
                     ob = t["otherwise"]
                     # an `otherwise` that is just `unreachable` is not a path
                     if fn.blocks[ob]["term"]["k"] == "unreachable" and not fn.blocks[ob]["stmts"]:
                         return
-                    self._walk(ob, dict(env), conds + [(d, ("ne", tuple(vals)), bb)], trace, events, onpath)
+                    self._walk(ob, dict(env), conds + [(d, ("ne", tuple(vals)), bb)], trace, events + [("cond", bb, None, d, ("ne", tuple(vals)))], onpath)
                 return
             raise AnalysisError("unsupported terminator %s in %s" % (k, fn.loc(bb)))
 
@@ -297,6 +306,8 @@ class PathEnum:
                 env[dk] = pp.place_s(p)
             elif len(p["proj"]) == 1 and ("@ref:_%d" % p["local"]) in env:
                 env[dk] = env["@ref:_%d" % p["local"]]  # reborrow &mut *r
+            elif self.versioned and p["proj"][0]["k"] == "deref" and 1 <= p["local"] <= self.fn.nargs and not any(e["k"] == "deref" for e in p["proj"][1:]):
+                env[dk] = pp.place_s(p)  # &mut (*arg) or &mut (*arg).field
         elif rv["k"] == "use" and rv["op"]["k"] in ("copy", "move"):
             sk = "@ref:" + pp.place_s(rv["op"]["place"])
             if sk in env:
@@ -308,7 +319,23 @@ class PathEnum:
             return
         sk = "@ref:" + pp.place_s(a["place"])
         key = env.get(sk)
+        if not key and self.versioned and a["k"] in ("copy", "move") and not a["place"]["proj"] and 1 <= a["place"]["local"] <= self.fn.nargs:
+            ty = self.fn.locals[a["place"]["local"]]["ty"]
+            if ty.get("k") == "ref" and ty.get("mut"):
+                key = "(*_%d)" % a["place"]["local"]  # the &mut argument itself is handed on
         if not key:
+            return
+        if key.startswith("(*_"):
+            root = key[3:].split(")")[0]
+            if key == "(*_%s)" % root:
+                env["@ver:_%s" % root] = env.get("@ver:_%s" % root, 0) + 1
+                for k in [k for k in env if k.startswith("(*_%s)" % root)]:
+                    del env[k]
+            else:
+                cur = env.get(key)
+                for k in [k for k in env if k.startswith(key + ".") or k.startswith(key + "[")]:
+                    del env[k]
+                env[key] = ("mut", cur if cur is not None else ("place", key, env.get("@ver:_%s" % root, 0)), path)
             return
         hit = False
         for k in [k for k in env if not k.startswith("@") and (k == key or k.startswith(key + "."))]:
